@@ -193,6 +193,11 @@ RunAspects(prev, x, ev) ==
      \cup (IF x.pio # ev.pio THEN {"pio"} ELSE {})
      \cup (IF Outs(x.pio) # Outs(ev.pio) THEN {"out"} ELSE {})
      \cup (IF x.n # ev.nacc THEN {"nacc"} ELSE {})
+     \cup (IF "con" \in DOMAIN ev
+             /\ (ev.con # [i \in 1 .. Len(SelectSeq(ev.pio, LAMBDA e : e[1] = 1 /\ e[2] = 0)) |->
+                             SelectSeq(ev.pio, LAMBDA e : e[1] = 1 /\ e[2] = 0)[i][3]]
+                 \/ ev.warn # Len(SelectSeq(ev.pio, LAMBDA e : e[1] = 0 \/ e[2] # 0)))
+           THEN {"console"} ELSE {})
      \cup (IF <<o.hc[1] - prev.hc[1], o.hc[2] - prev.hc[2]>> # ev.hc THEN {"hc"} ELSE {})
      \cup (IF o.pend # PendOf(ev.pend) THEN {"pend"} ELSE {})
 
@@ -286,6 +291,30 @@ EvWhole ==
                           ELSE bad
                 /\ cov' = Bump(cov, "REJECTED")
 
+----------------------------------------------------------------------------
+(* C18: cpm = after a program made BDOS calls on the mini CP/M machine and  *)
+(* jumped to 0.  calls = <<fn, arg>>...: fn 2 prints the byte arg, fn 9     *)
+(* prints the bytes at address arg up to (excluding) the first '$'.  The    *)
+(* console writer must have received exactly that, byte for byte in order;  *)
+(* every port read and every write to a port other than 0 is one warning;   *)
+(* the machine is halted at FF03 with SP as before.                         *)
+RECURSIVE StrAt(_, _, _)
+StrAt(x, a, fuel) == IF fuel = 0 \/ Peek(x, a) = 36 THEN <<>> ELSE <<Peek(x, a)>> \o StrAt(x, W(a + 1), fuel - 1)
+RECURSIVE Expected(_, _, _)
+Expected(x, calls, i) ==
+  IF i > Len(calls) THEN <<>>
+  ELSE (IF calls[i][1] = 2 THEN <<calls[i][2]>>
+        ELSE IF calls[i][1] = 9 THEN StrAt(x, calls[i][2], 70000) ELSE <<>>) \o Expected(x, calls, i + 1)
+EvCPM ==
+  /\ IsEv("cpm") /\ UNCHANGED c /\ KeepSK
+  /\ LET asp == (IF Ev.con = Expected(c, Ev.calls, 1) THEN {} ELSE {"console"})
+                \cup (IF c.r.PC = 65283 /\ c.halt /\ c.r.SP = Ev.sp0 THEN {} ELSE {"cpm-return"})
+     IN IF asp = {} THEN bad' = bad /\ cov' = Bump(cov, "CPM program")
+        ELSE /\ bad' = IF Len(bad) < MaxBad
+                       THEN Append(bad, [line |-> l, asp |-> asp, tag |-> "CPM program", pc |-> c.r.PC, f |-> 0, u |-> 0])
+                       ELSE bad
+             /\ cov' = Bump(cov, "REJECTED")
+
 EvMark == IsEv("mark") /\ slot' = c /\ UNCHANGED <<c, bad, cov, kf>>
 
 StackDepth == 64
@@ -316,7 +345,7 @@ Done ==
   /\ PrintT(<<"TRACE-RESULT", ToJson([consumed |-> l - 1, bad |-> bad, cov |-> cov, kf |-> kf])>>)
   /\ done' = TRUE /\ UNCHANGED <<l, c, bad, cov, rs, slot, kf>>
 
-TraceNext == EvInit \/ EvStep \/ EvRun \/ EvRaise \/ EvPoke \/ EvMark \/ EvCmp \/ EvWhole \/ EvPanic \/ EvMirror \/ Done
+TraceNext == EvInit \/ EvStep \/ EvRun \/ EvRaise \/ EvPoke \/ EvMark \/ EvCmp \/ EvWhole \/ EvCPM \/ EvPanic \/ EvMirror \/ Done
 TraceSpec == TraceInit /\ [][TraceNext]_vars
 
 \* every line was consumed (a line no action can take would stop the run early)
